@@ -328,6 +328,7 @@ class Check:
         extra_overlay: {repo-relative path: replacement file} (mutation controls / candidate repairs)
         """
         moddir = moddir or REPO
+        ensure_disk()
         d = self.scratch(name or "go")
         ov = {}
         pkgdir = os.path.normpath(os.path.join(moddir, pkg))
@@ -569,3 +570,16 @@ def apply_mutation(diff_path, scratch):
         if rc != 0:
             raise Inconclusive("mutation %s does not apply to %s: %s" % (diff_path, rel, o))
     return out
+
+
+def ensure_disk(min_free_gb=20):
+    """The Go build cache grows without bound under overlay/mutation/-race builds (128 GB were seen): when the
+    disk runs low, drop it (costs one recompilation) rather than fail with 'no space left on device'."""
+    try:
+        st = os.statvfs("/")
+        free = st.f_bavail * st.f_frsize / 1e9
+        if free < min_free_gb:
+            log("  [disk] only %.0f GB free: cleaning the Go build cache" % free)
+            sh(["go", "clean", "-cache"], env=_go_env(), timeout=900)
+    except OSError:
+        pass
